@@ -24,6 +24,18 @@
                                                   first (lowest) represented group of their type, if there is one
      BlockCollection._checkValidWeightingFactors  CreateReps refused: ValueError, representatives unchanged (env groups refreshed)
      disableEnvGroupUpdates/enableEnvGroupUpdates actions Disable / Enable
+     createRepresentativeBlocksUsingExistingBlocks action UseExisting(L): MakeGroups; every original type met in the listed blocks
+       + _getModifiedReprBlocks                   (in list order, only blocks whose key has a representative) gets the next unused letter of
+       + getNextAvailableXsTypes                  _ALLOWABLE_XS_TYPE_LIST; the listed blocks take the new type (specified: "Update the XS
+                                                  types of the blocks that will be modified"); the representatives are copied under the
+                                                  new keys; the settings of the old key are stored under the new key; one new, empty
+                                                  collection per new key with the class, valid block types and averageByComponent of the
+                                                  old one.  The action includes what the caller does next: append each listed block to the
+                                                  collection of its new key.
+     updateNuclideTemperatures(collections|None)  action UpdateTemps(which): "core" = fresh collections from MakeGroups, "grp" = the
+                                                  collections of the last grouping (kept by the caller), "new" = those of UseExisting;
+                                                  avgNucTemperatures becomes exactly the table of these collections, computed from
+                                                  the members' values NOW (NucTempsOf)
    Environment changes between calls (depletion, heating, a flux solution) are the actions Burn / Heat / Flux; they are
    plain parameter assignments on the real blocks.
 
@@ -32,8 +44,12 @@
            env      environment group number of each block (p.envGroupNum; the letter is EnvLetter of it)
            enabled  _envGroupUpdatesEnabled
            reps     representativeBlocks (sorted by key) with avgNucTemperatures, as exact values; unrep: _unrepresentedXSIDs
-           tvalid   avgNucTemperatures belong to reps: a refused createRepresentativeBlocks keeps the old representatives
-                    but has already emptied (and partly refilled) the temperatures, until the next successful call
+           temps    avgNucTemperatures of the manager: [known, tab]; a refused createRepresentativeBlocks keeps the old
+                    representatives but has already emptied (and partly refilled) the table: known = FALSE until the next call
+           ctl      the per-key settings (crossSectionControl); createRepresentativeBlocksUsingExistingBlocks adds to them
+           ret      what the last createRepresentativeBlocksUsingExistingBlocks returned: per new key the original key and the
+                    copied representative;  colls: the new collections it returned, filled by the caller with the listed blocks
+                    (the caller keeps these objects: updateNuclideTemperatures(colls) may be called again and again)
            grp/genv the block collections of the last grouping and the environment numbers it was made with (observation)
            err/act  outcome and label of the last action (observation)
            hist     the actions that led here, starting with the initial values (hidden by the VIEW; the emission config
@@ -49,6 +65,9 @@
    * two-letter types have no environment group, so an unrepresented group of such a type is left alone (the code
      applies the one-letter rule to the two characters of the key; the check reports what follows from that).
    * temperature-group boundaries are never hit exactly by the scenarios (the temperature is a float quotient).
+   * updateNuclideTemperatures is only taken when no median collection lacks candidates (the code raises IndexError there;
+     the statement says nothing about temperatures of groups without eligible members); UseExisting only with one-letter types,
+     a non-empty list and existing representatives (otherwise ValueError by documentation).
    * blocks present in the blueprints but not in the core (_getMissingBlueprintBlocks) and pre-generated cross
      sections are not modelled.
 *)
@@ -59,8 +78,8 @@ CONSTANTS Scenarios,       \* names
           TempNuc,         \* xsTempIsotope as a nuclide index ("U238" = 2)
           MaxLevel
 
-VARIABLES scn, blk, env, enabled, reps, tvalid, unrep, grp, genv, err, act, hist
-vars == <<scn, blk, env, enabled, reps, tvalid, unrep, grp, genv, err, act, hist>>
+VARIABLES scn, blk, env, enabled, ctl, reps, temps, unrep, grp, genv, ret, colls, err, act, hist
+vars == <<scn, blk, env, enabled, ctl, reps, temps, unrep, grp, genv, ret, colls, err, act, hist>>
 
 S      == ScnOf(scn)
 N      == Len(S.xs)
@@ -85,8 +104,8 @@ IdLess(a, b) == a[1] < b[1] \/ (a[1] = b[1] /\ a[2] < b[2])
 Default      == Opt(S.grep, S.gfilter, FALSE)
 \* the settings record that applies to a key: its own, else the one of the same type with the lowest lower letter, else the defaults
 CtlFor(id) ==
-    LET exact == {c \in S.ctl : c.id = id}
-        lower == {c \in S.ctl : c.id[1] = id[1] /\ c.id[2] < id[2]}
+    LET exact == {c \in ctl : c.id = id}
+        lower == {c \in ctl : c.id[1] = id[1] /\ c.id[2] < id[2]}
     IN IF exact # {} THEN CHOOSE c \in exact : TRUE
        ELSE IF lower = {} THEN [id |-> id, opt |-> Default, iso |-> TempNuc]
        ELSE CHOOSE c \in lower : \A d \in lower : c.id[2] <= d.id[2]
@@ -103,31 +122,32 @@ GroupSeq(e) ==
 MembersOf(G) == Concrete([j \in Idx(G.mem) |-> blk[G.mem[j]]])
 
 (* ---------- actions ---------- *)
+NoTemps == [known |-> TRUE, tab |-> <<>>]
 SeqProduct(sets) == FoldLeft(LAMBDA acc, X : {Append(a, x) : a \in acc, x \in X}, {<<>>}, sets)
 MkBlock(s, i, ch) == [xs |-> s.xs[i], kind |-> s.fixed[i].kind, alt |-> s.fixed[i].alt, h |-> s.fixed[i].h, hm |-> s.fixed[i].hm,
-                      n |-> s.fixed[i].n, t |-> <<ch[2], s.fixed[i].t2>>, bu |-> ch[1], w |-> ch[3], ord |-> <<1, 2>>, lfp |-> FALSE]
+                      n |-> s.fixed[i].n, t |-> <<ch[2], s.fixed[i].t2>>, bu |-> ch[1], w |-> ch[3], ord |-> <<1, 2>>, lfp |-> FALSE, sym |-> 1]
 Init == /\ scn \in Scenarios
         /\ blk \in {[i \in 1..Len(ScnOf(scn).xs) |-> MkBlock(ScnOf(scn), i, c[i])] : c \in SeqProduct(ScnOf(scn).choices)}
         /\ env = [i \in 1..Len(ScnOf(scn).xs) |-> 0]
-        /\ enabled = TRUE /\ reps = <<>> /\ tvalid = TRUE /\ unrep = <<>> /\ grp = <<>>
+        /\ enabled = TRUE /\ ctl = ScnOf(scn).ctl /\ reps = <<>> /\ temps = NoTemps /\ unrep = <<>> /\ grp = <<>> /\ ret = <<>> /\ colls = <<>>
         /\ genv = [i \in 1..Len(ScnOf(scn).xs) |-> 0]
         /\ err = "" /\ act = [n |-> "Init"]
         /\ hist = <<[n |-> "Init", dyn |-> [i \in 1..Len(ScnOf(scn).xs) |-> <<blk[i].bu, blk[i].t[1], blk[i].w>>]]>>
 
 Log   == hist' = Append(hist, act')
-Frame == UNCHANGED <<scn, env, enabled, reps, tvalid, unrep, grp, genv>>
+Frame == UNCHANGED <<scn, env, enabled, ctl, reps, temps, unrep, grp, genv, ret, colls>>
 BurnTo(i, v) == blk[i].bu # v /\ blk' = [blk EXCEPT ![i].bu = v] /\ Frame /\ err' = "" /\ act' = [n |-> "Burn", i |-> i, v |-> v] /\ Log
 HeatTo(i, v) == blk[i].t[1] # v /\ blk' = [blk EXCEPT ![i].t[1] = v] /\ Frame /\ err' = "" /\ act' = [n |-> "Heat", i |-> i, v |-> v] /\ Log
 FluxTo(i, v) == blk[i].w # v /\ blk' = [blk EXCEPT ![i].w = v] /\ Frame /\ err' = "" /\ act' = [n |-> "Flux", i |-> i, v |-> v] /\ Log
-Disable == enabled' = FALSE /\ UNCHANGED <<scn, blk, env, reps, tvalid, unrep, grp, genv>> /\ err' = "" /\ act' = [n |-> "Disable"] /\ Log
-Enable  == enabled' = TRUE /\ UNCHANGED <<scn, blk, env, reps, tvalid, unrep, grp, genv>> /\ err' = "" /\ act' = [n |-> "Enable"] /\ Log
+Disable == enabled' = FALSE /\ UNCHANGED <<scn, blk, env, ctl, reps, temps, unrep, grp, genv, ret, colls>> /\ err' = "" /\ act' = [n |-> "Disable"] /\ Log
+Enable  == enabled' = TRUE /\ UNCHANGED <<scn, blk, env, ctl, reps, temps, unrep, grp, genv, ret, colls>> /\ err' = "" /\ act' = [n |-> "Enable"] /\ Log
 
 \* (the results are computed by state-level operators and bound once with \E: TLC does not cache LET definitions that
 \*  sit directly in an action)
 MakeGroups ==
     \E e1 \in {Refresh} :
        /\ env' = e1 /\ genv' = e1 /\ grp' = GroupSeq(e1)
-       /\ UNCHANGED <<scn, blk, enabled, reps, tvalid, unrep>> /\ err' = "" /\ act' = [n |-> "Make"] /\ Log
+       /\ UNCHANGED <<scn, blk, enabled, ctl, reps, temps, unrep, ret, colls>> /\ err' = "" /\ act' = [n |-> "Make"] /\ Log
 
 CreateResult ==
     LET e1   == Refresh
@@ -146,16 +166,68 @@ CreateResult ==
 CreateReps ==
     \E r \in {CreateResult} :
        /\ grp' = r.gs /\ genv' = r.e1
-       /\ UNCHANGED <<scn, blk, enabled>>
+       /\ UNCHANGED <<scn, blk, enabled, ctl, ret, colls>>
        /\ act' = [n |-> "Create"] /\ Log
        /\ IF r.refused
-          THEN env' = r.e1 /\ err' = "ValueError" /\ tvalid' = FALSE /\ UNCHANGED <<reps, unrep>>
-          ELSE env' = r.e2 /\ err' = "" /\ tvalid' = TRUE /\ reps' = r.new /\ unrep' = r.unrep
+          THEN env' = r.e1 /\ err' = "ValueError" /\ temps' = [known |-> FALSE, tab |-> <<>>] /\ UNCHANGED <<reps, unrep>>
+          ELSE /\ env' = r.e2 /\ err' = "" /\ reps' = r.new /\ unrep' = r.unrep
+               /\ temps' = [known |-> TRUE, tab |-> Concrete([k \in Idx(r.new) |-> [id |-> r.new[k].id, nt |-> r.new[k].val.ntemp]])]
+
+(* createRepresentativeBlocksUsingExistingBlocks(listed blocks, representativeBlocks) and the filling of the new collections *)
+Distinct(seq) == FoldLeft(LAMBDA acc, x : IF x \in ToSet(acc) THEN acc ELSE Append(acc, x), <<>>, seq)
+PosIn(seq, x) == CHOOSE j \in Idx(seq) : seq[j] = x
+UseResult(L) ==
+    LET e1      == Refresh
+        gs      == GroupSeq(e1)
+        repIds  == {reps[k].id : k \in Idx(reps)}
+        hit     == SelectSeq(L, LAMBDA i : IdOf(i, e1) \in repIds)             \* listed blocks whose key has a representative
+        origIds == Distinct(Concrete([j \in Idx(hit) |-> IdOf(hit[j], e1)]))
+        types   == Distinct(Concrete([j \in Idx(hit) |-> blk[hit[j]].xs[1]]))
+        used    == {blk[i].xs[1] : i \in 1..N}                                 \* types allocated in the core
+        avail   == SetToSortSeq((1..52) \ used, <)
+        newType(t) == avail[PosIn(types, t)]
+        newId(id)  == <<newType(id[1]), id[2]>>
+        out     == Concrete([j \in Idx(origIds) |->
+                       LET o == origIds[j]
+                           r == reps[CHOOSE k \in Idx(reps) : reps[k].id = o]
+                           G == gs[CHOOSE g \in Idx(gs) : gs[g].id = o]
+                       IN [id |-> newId(o), orig |-> o, src |-> r.src, val |-> r.val, opt |-> G.opt,
+                           mem |-> SelectSeq(hit, LAMBDA i : IdOf(i, e1) = o)]])
+    IN [e1 |-> e1, gs |-> gs, out |-> out,
+        blk |-> Concrete([i \in 1..N |-> IF i \in ToSet(hit) THEN [blk[i] EXCEPT !.xs = <<newType(blk[i].xs[1])>>] ELSE blk[i]]),
+        ctl |-> ctl \cup {[id |-> newId(o), opt |-> CtlFor(o).opt, iso |-> CtlFor(o).iso] : o \in ToSet(origIds)}]
+UseExisting(L) ==
+    /\ ~Two /\ reps # <<>> /\ L # <<>>
+    /\ \E r \in {UseResult(L)} :
+          /\ env' = r.e1 /\ genv' = r.e1 /\ grp' = r.gs /\ blk' = r.blk /\ ctl' = r.ctl
+          /\ ret' = Concrete([j \in Idx(r.out) |-> [id |-> r.out[j].id, orig |-> r.out[j].orig, src |-> r.out[j].src, val |-> r.out[j].val]])
+          /\ colls' = Concrete([j \in Idx(r.out) |-> [id |-> r.out[j].id, opt |-> r.out[j].opt, mem |-> r.out[j].mem]])
+    /\ UNCHANGED <<scn, enabled, reps, temps, unrep>> /\ err' = "" /\ act' = [n |-> "Use", l |-> L] /\ Log
+
+(* updateNuclideTemperatures *)
+NoEmptyMedian(cseq) == \A g \in Idx(cseq) : cseq[g].opt.rep = "Median" => Len(Cand(MembersOf(cseq[g]), cseq[g].opt.filter)) > 0
+TableOf(cseq) == [known |-> TRUE, tab |-> Concrete([g \in Idx(cseq) |-> [id |-> cseq[g].id, nt |-> NucTempsOf(MembersOf(cseq[g]), cseq[g].opt)]])]
+UpdateCore ==
+    \E e1 \in {Refresh} : \E gs \in {GroupSeq(e1)} :
+       /\ NoEmptyMedian(gs)
+       /\ env' = e1 /\ genv' = e1 /\ grp' = gs /\ temps' = TableOf(gs)
+       /\ UNCHANGED <<scn, blk, enabled, ctl, reps, unrep, ret, colls>> /\ err' = "" /\ act' = [n |-> "UpdCore"] /\ Log
+UpdateHeld(cseq, name) ==
+    /\ cseq # <<>> /\ NoEmptyMedian(cseq)
+    /\ temps' = TableOf(cseq)
+    /\ UNCHANGED <<scn, blk, env, enabled, ctl, reps, unrep, grp, genv, ret, colls>> /\ err' = "" /\ act' = [n |-> name] /\ Log
 
 Next == \/ \E m \in S.burn : BurnTo(m[1], m[2])
         \/ \E m \in S.heat : HeatTo(m[1], m[2])
         \/ \E m \in S.flux : FluxTo(m[1], m[2])
-        \/ Disable \/ Enable \/ MakeGroups \/ CreateReps
+        \/ "Disable" \in S.acts /\ Disable
+        \/ "Enable" \in S.acts /\ Enable
+        \/ "Make" \in S.acts /\ MakeGroups
+        \/ "Create" \in S.acts /\ CreateReps
+        \/ \E L \in S.lists : UseExisting(L)
+        \/ "UpdCore" \in S.acts /\ UpdateCore
+        \/ "UpdGrp" \in S.acts /\ UpdateHeld(grp, "UpdGrp")
+        \/ "UpdNew" \in S.acts /\ UpdateHeld(colls, "UpdNew")
 Spec == Init /\ [][Next]_vars
 
 (* ---------- the clauses ---------- *)
@@ -210,24 +282,48 @@ RelabelRule ==
             IN IF id0 \in ok THEN env[i] = genv[i]
                ELSE IF \E r \in ok : r[1] = id0[1] THEN IdOf(i, env) \in ok /\ \A r \in ok : r[1] = id0[1] => env[i] <= EnvNumOfIdx(r[2])
                ELSE env[i] = genv[i]
+\* createRepresentativeBlocksUsingExistingBlocks: original type -> new type is injective and avoids every type in use; one new
+\* key per original key; the new collections hold listed blocks only, each listed block with a representative in exactly one, under
+\* its new key; the copied representatives are those of the original keys
+ExistingBlocksRule ==
+    act.n = "Use" =>
+        /\ \A a, b \in Idx(ret) : (ret[a].id = ret[b].id) <=> (ret[a].orig = ret[b].orig)
+        /\ \A a, b \in Idx(ret) : (ret[a].id[1] = ret[b].id[1]) <=> (ret[a].orig[1] = ret[b].orig[1])
+        /\ \A a \in Idx(ret) : /\ ret[a].id[2] = ret[a].orig[2]
+                                 /\ \E k \in Idx(reps) : reps[k].id = ret[a].orig /\ reps[k].val = ret[a].val
+                                 /\ ret[a].id \notin {reps[k].id : k \in Idx(reps)}
+        /\ Len(colls) = Len(ret)
+        /\ \A a \in Idx(colls) : /\ colls[a].id = ret[a].id
+                                   /\ \A j \in Idx(colls[a].mem) : colls[a].mem[j] \in ToSet(act.l) /\ IdOf(colls[a].mem[j], env) = colls[a].id
+        /\ \A i \in ToSet(act.l) : Cardinality({a \in Idx(colls) : i \in ToSet(colls[a].mem)}) <= 1
+        /\ \A i \in 1..N : i \notin ToSet(act.l) => \A a \in Idx(ret) : blk[i].xs[1] # ret[a].id[1]
 \* "Creating representatives never changes the blocks of the core" (all but the environment-group bookkeeping)
 RefreshIsEnvOf   == [][(act'.n \in {"Make", "Create"} /\ enabled /\ ~Single) => \A i \in 1..N : genv'[i] = EnvOf(i)]_vars
-BlocksUntouched  == [][act'.n \in {"Create", "Make", "Disable", "Enable"} => blk' = blk]_vars
+BlocksUntouched  == [][/\ act'.n \in {"Create", "Make", "Disable", "Enable", "UpdCore", "UpdGrp", "UpdNew"} => blk' = blk
+                        /\ act'.n = "Use" => \A i \in 1..N : [blk'[i] EXCEPT !.xs = <<>>] = [blk[i] EXCEPT !.xs = <<>>]
+                                                              /\ (i \notin ToSet(act'.l) => blk'[i] = blk[i])]_vars
 DisabledFreezes  == [][(act'.n = "Make" /\ ~enabled) => env' = env]_vars
 RefusalKeepsReps == [][err' # "" => reps' = reps]_vars
 
 (* ---------- observation (what the adapter projects from the real manager and core) ---------- *)
-RepObs(r, withTemps) == [id |-> IdText(r.id), src |-> r.src, dens |-> r.val.dens, cdens |-> r.val.cdens, ctemp |-> r.val.ctemp,
-                         ntemp |-> IF withTemps THEN r.val.ntemp ELSE <<>>, bu |-> r.val.bu]
+RepObs(r) == [id |-> IdText(r.id), src |-> r.src, dens |-> r.val.dens, cdens |-> r.val.cdens, ctemp |-> r.val.ctemp, bu |-> r.val.bu]
+CollObs(c) == [id |-> IdText(c.id), mem |-> c.mem, rep |-> c.opt.rep, filter |-> c.opt.filter, byComp |-> c.opt.byComp]
 Obs == [envn |-> env,
         envl |-> [i \in 1..N |-> EnvLetter(env[i])],
-        reps |-> [k \in Idx(reps) |-> RepObs(reps[k], tvalid)],
+        xs |-> [i \in 1..N |-> IF Two THEN IdText(blk[i].xs) ELSE Alphabet[blk[i].xs[1]]],
+        reps |-> [k \in Idx(reps) |-> RepObs(reps[k])],
+        temps |-> IF temps.known THEN [k \in Idx(temps.tab) |-> [id |-> IdText(temps.tab[k].id), nt |-> temps.tab[k].nt]] ELSE <<"?">>,
+        ret |-> [k \in Idx(ret) |-> [RepObs(ret[k]) EXCEPT !.src = 0] @@ [orig |-> IdText(ret[k].orig)]],
+        colls |-> [k \in Idx(colls) |-> CollObs(colls[k])],
+        ctl |-> {IdText(c.id) : c \in ctl},
         unrep |-> IF err = "" THEN [k \in Idx(unrep) |-> IdText(unrep[k])] ELSE <<"?">>,
-        grp |-> [g \in Idx(grp) |-> [id |-> IdText(grp[g].id), mem |-> grp[g].mem, rep |-> grp[g].opt.rep,
-                                     filter |-> grp[g].opt.filter, byComp |-> grp[g].opt.byComp]],
+        grp |-> [g \in Idx(grp) |-> CollObs(grp[g])],
         enabled |-> enabled, err |-> err]
 \* the discrete part, for trace validation
 DObs == [envn |-> env,
+         xs |-> [i \in 1..N |-> IF Two THEN IdText(blk[i].xs) ELSE Alphabet[blk[i].xs[1]]],
+         ret |-> [k \in Idx(ret) |-> [id |-> IdText(ret[k].id), orig |-> IdText(ret[k].orig)]],
+         colls |-> [k \in Idx(colls) |-> [id |-> IdText(colls[k].id), mem |-> colls[k].mem]],
          reps |-> [k \in Idx(reps) |-> [id |-> IdText(reps[k].id), src |-> reps[k].src]],
          unrep |-> IF err = "" THEN [k \in Idx(unrep) |-> IdText(unrep[k])] ELSE <<"?">>,
          grp |-> [g \in Idx(grp) |-> [id |-> IdText(grp[g].id), mem |-> grp[g].mem]],
